@@ -21,11 +21,13 @@ from ..data import whatwg_tokenizer as W
 LEVEL = "translation_validation"
 TECHNIQUE = ("extraction of a total transition table (66 state programs x 130 character atoms) by branch partition, and "
              "cell-by-cell comparison of its reconsume-closed macro-steps with a hand-transcribed WHATWG table")
-CLAIM = ("Each tokenizer state method is translated into (atom -> ops, next state, reconsume); after closing over reconsume "
-         "chains, every cell's token-visible effect must equal the transcribed standard's (parse errors are not compared; "
-         "adjacent character tokens merged; case folding compared case-insensitively with C02.6 checking that emission "
-         "lower-cases). Bulk reads, keyword look-ahead, appropriate-end-tag matching and duplicate-attribute resolution "
-         "are checked separately. This decides the transition relation for all states and characters, which no test samples.")
+CLAIM = ('Each tokenizer state method is translated into (atom -> ops, next state, reconsume); after closing '
+         "over reconsume chains, every cell's token-visible effect must equal the transcribed standard's "
+         '(parse errors are not compared; adjacent character tokens merged; case folding compared case- '
+         'insensitively with C02.6 checking that emission lower-cases). Bulk reads, keyword look-ahead, '
+         'appropriate-end-tag matching and duplicate-attribute resolution, the double-escape `script` tests, '
+         "the CDATA terminator and the entity trie's longest-prefix candidate sequence are checked separately. "
+         'This decides the transition relation for all states and characters, which no test samples.')
 NOT_DECIDED = ("newline normalisation and surrogate handling in the input stream (C05), correctness of the entity trie's "
                "search (C14 covers the tables), token positions, the character-reference sub-algorithm beyond C14's clauses.")
 MODULES = ["_tokenizer.py", "constants.py", "html5parser.py", "_trie/_base.py", "_trie/py.py", "_trie/__init__.py"]
